@@ -102,3 +102,15 @@ claim("C48", "result provenance (MIR return-place definitions + guard dominance)
       "verify_strict, Ok arm of recover_ecdsa, BLST_SUCCESS arm of Signature::verify/aggregate_verify), with message/key/signature operands "
       "originating from the function's own parameters; strict flags (verify_strict, sig_groupcheck/pk_validate = true, key validation in "
       "aggregate) and the ciphersuite constant are pinned; every other path yields false/None. The cryptography is trusted.")
+
+claim("C11", "who-may-call table + closure identity of the catch_unwind argument + guard dominance of input validation",
+      "Decides the containment clause only: every native package invoke_export is called from the closure handed to std::panic::catch_unwind "
+      "in NativeVmInstance::invoke (or from another native invoke_export), that closure is never invoked directly, a caught panic becomes "
+      "NativeRuntimeError::Trap, and blueprint dispatch in invoke_upstream happens only after input payload validation. Absence of panics "
+      "outside that boundary (system/kernel/track re-panic by design) is not decided.")
+
+claim("C01", "forbidden-callee-in-scope over the whole call database with sanitiser idioms + who-may-read tables + API allow-list",
+      "Decides: no function of the execution/library crates uses an order-revealing API of a std/hashbrown hash collection unless its only "
+      "consumer is order-insensitive; no clock/random/env/thread/fs call (manifest dumper tooling excepted) and no pointer-to-integer cast "
+      "(audited wasmi host pointer excepted); diagnostic flags are read only where modules are selected / receipts built; trace modules call "
+      "only uncosted readers; NonIterMap has no iteration API. Input-determinism of IndexMap insertion orders and the WASM cache are not decided.")
